@@ -201,7 +201,7 @@ pub fn replay_other(run: &'static Run, kind: &str, case: &J) -> Option<i32> {
             timealloc::virtual_clock_runs(run);
             Some(0)
         }
-        "clock" | "movetime" => {
+        "clock" | "movetime" | "clock-via-go" => {
             timealloc::replay(run, case);
             Some(0)
         }
@@ -465,9 +465,12 @@ fn c19(run: &Run) -> i32 {
     report::finish(run, s, t, "breadth-first search over operation histories of the real table, de-duplicated on the canonical observable state; after every operation every probe is compared with a reference replacement policy (the case the property leaves open is decided by the implementation's own should_overwrite_with)", true)
 }
 
-fn c14(run: &Run) -> i32 {
+fn c14(run: &'static Run) -> i32 {
     let (mut s, mut t) = timealloc::run(run);
     let (a, b) = timealloc::virtual_clock_runs(run);
+    s += a;
+    t += b;
+    let (a, b) = timealloc::via_go(run);
     s += a;
     t += b;
     run.assume("part 2 of the property (a search returns before the clock runs out) is explored with a virtual clock in the search-session checks; real wall-clock time cannot be enumerated");
@@ -497,12 +500,16 @@ fn c10(run: &Run) -> i32 {
     report::finish(run, s, streams.max(s), &format!("positions with a previous move (BFS from {} seeds) x every configuration of hash move / killers / counter move / history / ply with at most {} simultaneous deviations from the default; the stream of MovePicker::next as a multiset equals the reference legal moves; captures-only stream duplicate-free, legal, containing all captures and queen promotions", families::seeds().len(), mon.c10 - 1), true)
 }
 
-fn c04_c08(run: &Run, prop: &str) -> i32 {
+fn c04_c08(run: &'static Run, prop: &str) -> i32 {
     use crate::searchchk::{self, Focus};
     let focus = if prop == "C04" { Focus::C04 } else { Focus::C08 };
     let (mut s, mut t) = searchchk::c04_c08(run, focus);
     if prop == "C04" {
         let (a, b) = crate::bbchk::c04(run);
+        s += a;
+        t += b;
+    } else {
+        let (a, b) = crate::ucichk::c08_text(run);
         s += a;
         t += b;
     }
@@ -534,6 +541,9 @@ fn c09(run: &Run) -> i32 {
 fn c12(run: &'static Run) -> i32 {
     let (mut s, mut t) = crate::ucichk::c12(run);
     let (a, b) = crate::bbchk::c12(run);
+    s += a;
+    t += b;
+    let (a, b) = crate::ucichk::newgame_under_schedules(run);
     s += a;
     t += b;
     run.sample(J::obj(vec![("session", J::s("search [kiwipete] depth 5 | sethash 2 | ucinewgame | search [startpos] depth 5   vs   fresh Hash 2: search [startpos] depth 5"))]));
